@@ -604,7 +604,6 @@ func concurrent(t *testing.T, r *ev.Run) {
 
 var _ = sql.ErrNoRows
 
-
 // backendFaults stores records, then makes the back end itself fail reads / writes (connection trouble, service
 // errors) and checks that the metastore reports an error: a stored record must never be reported absent, a write
 // that did not happen must never be reported as stored, and once the fault is gone everything is as before.
